@@ -230,6 +230,13 @@ def t_vmdk(rng):
         reasons.append('footer_contradicts:' + _what)
         hint = 'footer'
     p['desc_lines'] = lines
+    c = rng.random()
+    if c < 0.15:
+        p['desc_nl'] = '\r\n'       # descriptors written on Windows
+    elif c < 0.25:
+        # trailing blanks on some lines
+        p['desc_lines'] = [l + rng.choice(('', ' ', '  ')) if l else l
+                           for l in lines]
     label = 'reject' if reasons else ('accept' if canonical else 'none')
     return {'layout': 'vmdk', 'p': p}, label, reasons, hint
 
